@@ -98,18 +98,22 @@ package lexer
 //@   prop C20
 //@   nopanic
 //@   requires d != nil
+//@   ensures result != nil
 //@ func (*Dispenser).SyntaxErr
 //@   prop C20
 //@   nopanic
 //@   requires d != nil
+//@   ensures result != nil
 //@ func (*Dispenser).Err
 //@   prop C20
 //@   nopanic
 //@   requires d != nil
+//@   ensures result != nil
 //@ func (*Dispenser).Errf
 //@   prop C20
 //@   nopanic
 //@   requires d != nil
+//@   ensures result != nil
 //@ func (*Dispenser).numLineBreaks
 //@   prop C20
 //@   nopanic
